@@ -211,6 +211,9 @@ func (ex *Exec) yield(what string) {
 		return
 	}
 	cur := ex.curG
+	if ex.h.PreemptIn != "" && !strings.Contains(cur.fnName, ex.h.PreemptIn) {
+		return
+	}
 	en := ex.enabled()
 	var others []*Goroutine
 	for _, g := range en {
